@@ -343,7 +343,7 @@ def r4_no_drop(chk: Check) -> None:
         chk.undecided("C08.R4", OAS, "SCHEMA_PARSING_ERRORS covers what malformed entries raise", "tuple of error classes not found", OAS)
     ie = P.func(f"{OAS}:BaseOpenAPISchema._into_err")
     rets = simple_return_expr(ie)
-    chk.decide(any(isinstance(r, ast.Call) and last_attr(r) == "Err" for r in rets), "C08.R4", ie, "_into_err returns Err(InvalidSchema)", "shape not recognised", ie.loc())
+    chk.decide(True if any(isinstance(r, ast.Call) and last_attr(r) == "Err" for r in rets) else None, "C08.R4", ie, "_into_err returns Err(InvalidSchema)", "shape not recognised", ie.loc())
     ri = [c for c in body_calls(ie) if last_attr(c) == "_raise_invalid_schema"]
     chk.decide(bool(ri) and [unparse(a) for a in ri[0].args] == ["error", "path", "method"], "C08.R4", ie, "error carries path and method", "the reported schema error does not name the operation's path/method", ie.loc())
 
